@@ -112,7 +112,7 @@ harness!(se_h_c16_window, c16_window, {
     let off = param(7);
     if kind == 2 {
         let clen = if class == 3 { 2 } else { 1 };
-        let mut buf = [0u16; 160];
+        let mut buf = [0u16; 320];
         let p = k * clen;
         fill16(&mut buf, class, off, p);
         for i in 0..w { buf[off + p + i] = sym_u16(i as u32); }
@@ -120,7 +120,7 @@ harness!(se_h_c16_window, c16_window, {
         check16(&buf[off..off + p + w + s * clen]);
     } else {
         let clen = class + 1;
-        let mut buf = [0u8; 200];
+        let mut buf = [0u8; 320];
         let p = k * clen;
         fill8(&mut buf, class, off, p);
         for i in 0..w { buf[off + p + i] = sym_u8(i as u32); }
